@@ -401,7 +401,7 @@ func fnHello(ctx *cmdContext, args map[string]any) (output respValue, err error)
 				output.data = respErrorString("NOPROTO unsupported protocol version")
 				return
 			}
-			ctx.cs.respVersion = int(ver)
+			ctx.cs.setRespVersion(int(ver))
 		}
 	}
 
